@@ -128,11 +128,19 @@ HttpResp     == {"http/chains", "http/info", "http/public.latest", "http/public.
 LogKinds     == {"log/line", "stdout/line"}
 
 Responses == ProtocolResp \cup PublicResp \cup DkgPubResp \cup MetricsResp \cup ControlResp \cup DkgCtlResp \cup HttpResp
-Inventory == GossipKinds \cup BcastKinds \cup OutKinds \cup Responses \cup LogKinds
+
+(* An ERROR REPLY is a response too: the error text of a refused request travels back to the (remote) caller
+   (gRPC status message / HTTP error body) and is usually logged by both sides.  Every RPC that can refuse has
+   its own emitter "<rpc>.err"; the ones below have no failing path in the code.                              *)
+NeverFails == {"control/PingPong", "control/ListSchemes", "public/ListBeaconIDs", "metrics/Metrics", "http/chains"}
+ErrOf(r) == r \o ".err"
+ErrReplies == {ErrOf(r) : r \in Responses \ NeverFails}
+
+Inventory == GossipKinds \cup BcastKinds \cup OutKinds \cup Responses \cup ErrReplies \cup LogKinds
 
 (* peer / public facing emitters (the statement's "response, stream item, gossip or broadcast packet, HTTP body");
    control endpoints are local-operator-only but are checked all the same *)
-PeerFacing == Inventory \ (ControlResp \cup DkgCtlResp \cup LogKinds)
+PeerFacing == Inventory \ (ControlResp \cup DkgCtlResp \cup {ErrOf(r) : r \in ControlResp \cup DkgCtlResp} \cup LogKinds)
 
 (* what the code puts into each emission, for node n whose last finished epoch is e and
    whose running ceremony (if any) is for epoch e+1                                            *)
@@ -152,6 +160,10 @@ Content(n, key, e) ==
     [] key \in {"public/ChainInfo", "control/ChainInfo", "http/info"} -> Dist(e)        \* chain.Info: dist public key, hashes
     [] key = "control/GroupFile"       -> GroupAtoms(e)                                 \* Group.ToProto
     [] key = "dkgcontrol/DKGStatus"    -> Proj(DBStateObj(n, e, TRUE), DKGEntryFields)
+    \* a refusal quotes the request (addresses, public keys, signed message, the caller's signature, rounds) and
+    \* public facts about the node (actions_signing.go verifyMessage, broadcast.go BroadcastDKG, beacon/node.go
+    \* ProcessPartialBeacon, drand_daemon_helper.go readBeaconID, state_machine.go Err*): never the key pair
+    [] key \in ErrReplies -> Parts \cup Beacons(e) \cup {PktSig(p) : p \in Peers}
     [] key \in {"log/line", "stdout/line"} -> Parts \cup Dist(e) \cup Beacons(e) \cup {PktSig(n)} \* addresses, public keys, (short) signatures, hashes, paths
     [] OTHER -> {}     \* status flags, ids, empty acknowledgements, progress counters, metrics text, chain hashes, health
 
@@ -315,6 +327,11 @@ Respond(n, key) == /\ node[n].up /\ Idle(n) /\ key \in Responses \ {"control/Shu
                    /\ last' = Emission(n, key, node[n].epoch)
                    /\ UNCHANGED <<node, fs, io, umask>>
 
+(* a request is refused (bad signature, outsider, tampered terms, wrong state, unknown beacon id, ...): nothing changes but the reply *)
+Refuse(n, key) == /\ node[n].up /\ Idle(n) /\ key \in ErrReplies
+                  /\ last' = Emission(n, key, node[n].epoch)
+                  /\ UNCHANGED <<node, fs, io, umask>>
+
 Backup(n) == /\ node[n].up /\ node[n].epoch > 0 /\ Idle(n)
              /\ Queue(n, ProgBackup(n, node[n].epoch))
              /\ last' = Emission(n, "control/BackupDatabase", node[n].epoch)
@@ -334,6 +351,7 @@ Next == \E n \in Nodes :
           \/ Beacon(n) \/ Backup(n) \/ Log(n)
           \/ \E key \in OutKinds : Send(n, key)
           \/ \E key \in Responses : Respond(n, key)
+          \/ \E key \in ErrReplies : Refuse(n, key)
 
 Spec == Init /\ [][Next]_vars
 
